@@ -49,11 +49,129 @@ def build_class(n, doc, phr=None):
     return "\n".join(lines) + "\n"
 
 
+# ---- conversions of one parsed object that the caller keeps (Determinism!CallShared) ---------------------------------------------------------
+# A caller parses a module ONCE and converts the same node object to several targets (what gen/sync-like drivers do).  SHARED holds that
+# object for the life of this process; a job with "shared": false parses the text afresh.  Both are observations of the same (api, input).
+SOURCES = {
+    "fn_body": '''def scale(value, factor=2):
+    """
+    Scale a value
+
+    :param value: the value to scale
+    :type value: ```int```
+
+    :param factor: the multiplier
+    :type factor: ```int```
+
+    :return: the scaled value
+    :rtype: ```int```
+    """
+    result = value * factor
+    print("scaled", value, "by", factor)
+    return result
+''',
+    "class_call": '''class Scale(object):
+    """
+    Scale a value
+
+    :cvar value: the value to scale
+    :cvar factor: the multiplier
+    :cvar return_type: the scaled value
+    """
+
+    value: int = 1
+    factor: int = 2
+    return_type: int = 0
+
+    def __call__(self):
+        result = self.value * self.factor
+        print("scaled", self.value, "by", self.factor)
+        return result
+''',
+    "class_local": '''class Scale(object):
+    """
+    Scale a value
+
+    :cvar value: the value to scale
+    :cvar factor: the multiplier
+    :cvar return_type: the scaled value
+    """
+
+    value: int = 1
+    factor: int = 2
+    return_type: int = 0
+
+    def __call__(self):
+        factor = self.factor or 1
+        return self.value * factor
+''',
+    "argparse_body": '''def set_cli_args(argument_parser):
+    """
+    Set CLI arguments
+
+    :param argument_parser: argument parser
+    :type argument_parser: ```ArgumentParser```
+
+    :return: argument_parser, the scaled value
+    :rtype: ```Tuple[ArgumentParser, int]```
+    """
+    argument_parser.description = "Scale a value"
+    argument_parser.add_argument("--value", type=int, help="the value to scale", required=True)
+    argument_parser.add_argument("--factor", type=int, help="the multiplier", required=True, default=2)
+    return argument_parser, 0
+''',
+}
+SHARED = {}
+TARGETS = ("function", "class", "class_call", "argparse", "docstring", "json_schema", "pydantic", "sqlalchemy")
+
+
+def convert_shared(src, tgt, shared):
+    import cdd.argparse_function.emit
+    import cdd.argparse_function.parse
+    import cdd.class_.emit
+    import cdd.class_.parse
+    import cdd.docstring.emit
+    import cdd.function.emit
+    import cdd.function.parse
+    import cdd.json_schema.emit
+    import cdd.pydantic.emit
+    import cdd.sqlalchemy.emit
+    from cdd.shared.source_transformer import to_code
+
+    if shared:
+        if src not in SHARED:
+            SHARED[src] = ast.parse(SOURCES[src]).body[0]
+        node = SHARED[src]
+    else:
+        node = ast.parse(SOURCES[src]).body[0]
+    ir = {"fn_body": cdd.function.parse.function, "class_call": cdd.class_.parse.class_, "class_local": cdd.class_.parse.class_,
+          "argparse_body": cdd.argparse_function.parse.argparse_ast}[src](node)
+    if tgt == "function":
+        return to_code(cdd.function.emit.function(ir, function_name=None, function_type=None if src == "fn_body" else "static"))
+    if tgt == "class":
+        return to_code(cdd.class_.emit.class_(ir, class_name="Scale"))
+    if tgt == "class_call":
+        return to_code(cdd.class_.emit.class_(ir, class_name="Scale", emit_call=True))
+    if tgt == "argparse":
+        return to_code(cdd.argparse_function.emit.argparse_function(ir))
+    if tgt == "docstring":
+        return cdd.docstring.emit.docstring(ir)
+    if tgt == "json_schema":
+        return json.dumps(cdd.json_schema.emit.json_schema(ir))
+    if tgt == "pydantic":
+        return to_code(cdd.pydantic.emit.pydantic(ir, class_name="Scale"))
+    if tgt == "sqlalchemy":
+        return to_code(cdd.sqlalchemy.emit.sqlalchemy(ir, class_name="Scale", table_name="scale_tbl"))
+    raise KeyError(tgt)
+
+
 def run_job(job):
     from harness import gamma as G
     from harness import real
 
     api, inp = job["api"], job["input"]
+    if api.startswith("conv."):
+        return convert_shared(inp["src"], api[5:], inp["shared"])
     if api == "function.parse":
         import cdd.function.parse
 
